@@ -85,7 +85,45 @@ def correspond(ctx):
         if st.get('child_failures'):
             c['ok'] = False
             c['errors'].append('%d scenario processes died' % st['child_failures'])
-    return [c, _fault_stage(ctx)]
+    return [c, _pure_stage(ctx), _fault_stage(ctx)]
+
+
+def _pure_stage(ctx):
+    """Direct T-corr streams of two pure functions on the path: chainPvGreatThanRemote (tie-break order, with equal prove
+    values, equal / leading-zero hashes) and getRequestIdFromTransactions (header request id) against the Lean definitions
+    pvGreater / requestIdFrom. Needs verif hook H4c-c05; skipped with a note while the repository lacks it."""
+    hook = os.path.join(ctx.repo, 'src', 'core', 'verif_c05_export.go')
+    if not (os.path.exists(hook) and 'VerifC05RequestIds' in open(hook).read()):
+        return dict(name='pure-functions', ok=True, ops=0, mismatches=0, unmodelled=0, errors=[], violations=[], samples=[],
+                    distinct_nontrivial=0, stats=dict(skipped='repository under test lacks verif hook H4c-c05'))
+    res = dict(name='pure-functions', ok=False, ops=0, mismatches=0, unmodelled=0, errors=[], violations=[], samples=[],
+               distinct_nontrivial=0)
+    binp, log = vlib.go_build(ctx, vlib.HARNESS, './cmd/c05', 'c05pure', tags='verif c05pure')
+    if not binp:
+        res['errors'].append('pure-stream harness build failed: ' + log[-1200:])
+        return res
+    cwd = ctx.scratch('c05-pure')
+    ops, obs, mod = (os.path.join(ctx.work, 'c05p.' + x) for x in ('ops', 'obs', 'mod'))
+    rc, so, se = vlib.run([binp, 'ops=' + ops, 'obs=' + obs, 'mode=pure', 'n=%d' % (3000 if ctx.thorough() else 500), 'workers=1'],
+                          cwd=cwd, env=dict(VERIF_SEED=str(ctx.seed), GOMEMLIMIT='4GiB'), timeout=300)
+    import shutil
+    shutil.rmtree(cwd, ignore_errors=True)
+    if rc != 0 or not os.path.exists(ops):
+        res['errors'].append('pure-stream run failed rc=%d %s' % (rc, (se or so)[-600:]))
+        return res
+    rc2, err2 = vlib.run_driver('C05', ops, mod)
+    d = vlib.diff_streams(ops, obs, mod)
+    res.update(ops=d['ops'], mismatches=d['mismatches'], first=d['first'], unmodelled=d['unmodelled'], bad_op=d['bad_op'],
+               distinct_nontrivial=d['ops'])
+    kinds = {}
+    for o, x in zip(open(ops), open(obs)):
+        k = o.split()[0] + '->' + x.strip()[:8]
+        kinds[k] = kinds.get(k, 0) + 1
+    res['stats'] = dict(kinds=kinds)
+    res['ok'] = rc2 == 0 and d['mismatches'] == 0 and d['bad_op'] == 0 and d['ops'] > 0
+    if not res['ok']:
+        res['errors'].append('pure-function streams differ: %s' % str(d['first'][:2])[:400])
+    return res
 
 
 def _fault_stage(ctx):
